@@ -117,6 +117,11 @@ def install_value_model(E, ctx):
 
     def _type_cmp(E_, a, b):
         for x, y in ((a, b), (b, a)):
+            if isinstance(x, VVal) and x.t.sort() == ValS and isinstance(y, VBool) and y.concrete() is not None:
+                # `flag is True` / `flag == True` on a caller-given value: the singleton, not "any truthy value"
+                tv, fv = bool_val(z3.BoolVal(True)), bool_val(z3.BoolVal(False))
+                E.assume(z3.And(truthy(tv), z3.Not(truthy(fv)), tv != fv))
+                return x.t == (tv if y.concrete() else fv)
             if isinstance(x, Obj) and x.cls == 'type_of':
                 if not isinstance(y, (VClass, VStub)):
                     raise Unsupported('type(x) compared with %r' % (y,))
@@ -348,7 +353,9 @@ def t_parse_to_dict(E):
         st.clear()
         items = E.fresh_val('items')
         sep = E.fresh_str('sep')
-        pk = E.fresh_bool('parse_keys')
+        # parse_keys is whatever the caller passes: what counts is its truthiness (1, 'yes', a numpy bool are "true")
+        pk_arg = E.fresh_val('parse_keys')
+        pk = VBool(truthy(pk_arg.t))
         parse = Obj('callable', tag='parse')
         ctx.update(parse=parse, sep=sep, parse_keys=pk)
         E.assume(z3.Length(sep.t) >= 1)
@@ -356,7 +363,7 @@ def t_parse_to_dict(E):
         E.cover(f.qualname + '/requires')
         E.canary(f.qualname + '/canary@entry')
         try:
-            res = E.run_function(f, [items], dict(sep=sep, parse=parse, parse_keys=pk))
+            res = E.run_function(f, [items], dict(sep=sep, parse=parse, parse_keys=pk_arg))
             kind = 'return'
         except PyExc as pe:
             kind = 'raise'
@@ -573,6 +580,17 @@ def t_split(E):
         E.builtins['iter'] = VStub('iter', _iter)
         E.builtins['__comprehension__'] = _genexp
         E.builtins['__identical__'] = _identical
+
+        def _eq_singleton(E_, a, b):
+            """`c == True` / `c == False` on an opaque element: equality with the singleton (1 == True, 0 == False) -- it
+            implies the corresponding truthiness, but 2, 'x', [0] are truthy and not equal to True"""
+            for x, y in ((a, b), (b, a)):
+                if isinstance(x, VVal) and x.t.sort() == ValS and isinstance(y, VBool) and y.concrete() is not None:
+                    p = z3.Function('equals_' + str(y.concrete()), ValS, B)(x.t)
+                    E.assume(z3.Implies(p, truthy(x.t) if y.concrete() else z3.Not(truthy(x.t))))
+                    return p
+            return None
+        E.builtins['__eq__'] = _eq_singleton
         # the singletons among the opaque values: True is truthy, False and None are falsy
         E.assume(z3.And(truthy(bool_val(z3.BoolVal(True))), z3.Not(truthy(bool_val(z3.BoolVal(False)))),
                         z3.Not(truthy(NONE_VAL)), bool_val(z3.BoolVal(True)) != bool_val(z3.BoolVal(False)),
@@ -759,6 +777,24 @@ def t_exhaust(E):
         E.builtins['hasattr'] = VStub('hasattr', _hasattr)
         E.builtins['any'] = _short_circuit('any')
         E.builtins['all'] = _short_circuit('all')
+
+        def _collect(name):
+            def fn_(E_, a, k):
+                """set()/frozenset()/list()/tuple()/sorted() of the argument: pulls it dry but KEEPS every element; the
+                hashing / comparing kinds fail on elements that cannot be hashed / ordered, part-way through"""
+                it_ = a[0] if a else None
+                if isinstance(it_, Obj) and it_.cls == 'Iter':
+                    source_may_raise()
+                    if name in ('set', 'frozenset', 'sorted', 'dict.fromkeys') and \
+                            E.choose([('all_fine', None), ('an_element_cannot_be_hashed_or_compared', None)], name) != 'all_fine':
+                        E.throw('TypeError', origin=name + '() of the elements')
+                    it_.fields['pulled_all'] = True
+                    st['maxlen'] = None
+                    return Obj('collection')
+                raise Unsupported('%s(%r)' % (name, a))
+            return VStub(name, fn_)
+        for cn in ('set', 'frozenset', 'list', 'tuple', 'sorted'):
+            E.builtins[cn] = _collect(cn)
         it = mk_iter(E.fresh('X', VS))
         E.cover(f.qualname + '/requires')
         E.canary(f.qualname + '/canary@entry')
